@@ -491,7 +491,7 @@ def same_len_pairs(lo, hi):
 
 
 def gen_add(tier, seed):
-    hi = 6 if tier == "thorough" else 5
+    hi = 7 if tier == "thorough" else 6
     ss = list(strings(0, hi))
     for s1 in ss:
         for s2 in ss:
@@ -907,6 +907,14 @@ def gen_seq(tier, seed):
             for b in range(a, L + 1):
                 yield [s, "slice", a, b]
                 yield [s, "seq_feature_map", a, b]
+    if tier == "thorough":
+        rnd = random.Random(seed)
+        for _ in range(1500):
+            L = rnd.randint(9, 24)
+            s = "".join(rnd.choice("x-") for _ in range(L))
+            a = rnd.randint(0, L)
+            b = rnd.randint(a, L)
+            yield [s, rnd.choice(("roundtrip", "rc", "slice", "slice", "seq_feature_map")), a, b]
 
 
 def contract_seq(case):
@@ -977,6 +985,13 @@ def fm_cols(spans):
 
 def fm_real(fm):
     """real view of a FeatureMap: (columns | error marker, len, parent_length)"""
+    try:
+        return _fm_real(fm)
+    except Exception as e:  # noqa: BLE001
+        return ["raises", f"{type(e).__name__}: {e}"[:120]], -1, -1
+
+
+def _fm_real(fm):
     cols = []
     P = int(fm.parent_length)
     for sp in fm.spans:
@@ -1077,7 +1092,7 @@ FM_OPS = ("inverse", "covered", "shadow", "nucleic_reversed", "structure", "scal
 def gen_fm_unary(tier, seed):
     thorough = tier == "thorough"
     for P in range(0, 5 if thorough else 4):
-        for spans in fmaps(P, 3 if P <= 3 else 2, empties=(P <= 2)):
+        for spans in fmaps(P, 3, empties=(P <= 2)):
             for op in FM_OPS:
                 yield [P, spans, op]
     if thorough:
@@ -1398,7 +1413,7 @@ BOUNDED = {
     "add": {
         "gen": gen_add, "contract": contract_add,
         "functions": [_IM + "__add__"],
-        "bound": "all ordered pairs of strings of length 0..5 (thorough 0..6; 3969 / 16129 pairs) + thorough 4000 "
+        "bound": "all ordered pairs of strings of length 0..6 (thorough 0..7; 16129 / 65025 pairs) + thorough 4000 "
                  "seeded random pairs up to length 14",
         "rule": "expected = view of s1+s2; key pattern = the two symbols at the junction",
     },
@@ -1406,7 +1421,8 @@ BOUNDED = {
         "gen": gen_merge, "contract": contract_merge,
         "functions": [_IM + "merge_maps", "cogent3.core.location._update_lengths"],
         "bound": "all ordered pairs of strings of length 0..6 (thorough 0..8) with the same number of residues and "
-                 "merged length <= bound+2, with parent_length omitted and (length<=5) given explicitly; thorough 3000 "
+                 "merged length <= bound+2, maps built by parse_out_gaps and by the IndelMap constructor, with parent_length "
+                 "omitted and (length<=5) given explicitly; thorough 3000 "
                  "seeded random pairs with 3..12 residues",
         "rule": "expected = string with the gaps of both inserted before the same residue",
     },
@@ -1431,10 +1447,12 @@ BOUNDED = {
         "functions": [_IM + "__getitem__", _IM + "__add__", _IM + "__mul__", _IM + "nucleic_reversed",
                       _IM + "joined_segments", _IM + "minus_gaps", _IM + "merge_maps"],
         "bound": "all strings of length 1..4 (thorough 1..5) x every first operation (slice, reverse, x2, add/radd of 6 "
-                 "strings, 2-segment joins, minus every (quick: every third) equal-length string, merges) x every second "
-                 "operation from a reduced set; thorough 4000 seeded random depth-3 chains",
-        "rule": "only the final map is compared (the intermediate may be a non-canonical representation); key = "
-                "operation names + pattern of the last operation",
+                 "strings, 2-segment joins, minus every (quick: every third) equal-length string, merges; quick, length "
+                 "4: every second join/merge) x every second operation from a reduced set; thorough 4000 seeded random "
+                 "depth-3 chains",
+        "rule": "only the final map is compared (an intermediate may be a non-canonical representation); a failure the "
+                "last operation also shows on a freshly built map gets the single-operation key, a failure caused by an "
+                "intermediate map that disagrees with its own string is keyed chain/noncanonical-<op>><last op>/<observer>",
     },
     "seq": {
         "gen": gen_seq, "contract": contract_seq,
@@ -1442,7 +1460,8 @@ BOUNDED = {
                       "cogent3.core.sequence.Sequence.gapped_by_map_segment_iter", _IM + "make_seq_feature_map",
                       _IM + "nucleic_reversed", _IM + "__getitem__", _IM + "get_seq_index"],
         "bound": "all gap layouts of length 0..6 (thorough 0..8) with distinct residue letters x {round trip, reverse "
-                 "complement, every interval slice re-gapped through the sliced map, interval -> sequence feature map}",
+                 "complement, every interval slice re-gapped through the sliced map, interval -> sequence feature map}; "
+                 "thorough 1500 seeded random cases on strings of length 9..24",
         "rule": "expected = the (sliced / reverse-complemented) gapped string itself",
     },
     "fm_unary": {
@@ -1450,11 +1469,13 @@ BOUNDED = {
         "functions": ["cogent3.core.location.FeatureMap." + n for n in
                       ("inverse", "covered", "shadow", "nucleic_reversed", "gaps", "nongap", "without_gaps", "__mul__",
                        "__truediv__", "get_coordinates", "start", "end", "__post_init__")],
-        "bound": "parent length 0..3 (thorough 0..4) x every list of <=3 (<=2 for the largest parent) spans out of all "
-                 "forward/reverse/empty spans inside the parent and lost spans of length 1,2 (overlapping and unordered "
-                 "lists included); thorough 5000 seeded random maps on parents 5..12",
+        "bound": "parent length 0..3 (thorough 0..4) x every list of <=3 spans out of all "
+                 "forward/reverse spans (parent <=2: also empty spans) inside the parent and lost spans of length 1,2 "
+                 "(overlapping and unordered lists included) x {inverse, covered, shadow, nucleic_reversed, structure "
+                 "observers, scale by 2 and 3 and back}; thorough 5000 seeded random maps on parents 5..12",
         "rule": "map = list of (parent index, strand)|lost per position; inverse = the inverse partial function (only "
-                "for maps without overlaps; ValueError accepted with overlaps), inverse twice = the map; covered = sorted "
+                "for maps without overlaps; ValueError accepted when a span starts inside an earlier one), inverse "
+                "twice = the map; covered = sorted "
                 "set of positions; shadow = sorted complement; nucleic_reversed = spans mirrored p -> P-p in reverse order",
     },
     "fm_getitem": {
@@ -1463,7 +1484,8 @@ BOUNDED = {
                       "cogent3.core.location.as_map", "cogent3.core.location._norm_slice",
                       "cogent3.core.location.Span.__getitem__", "cogent3.core.location._LostSpan.__getitem__"],
         "bound": "parent length 0..3 (thorough 0..4) x every map of <=2 spans x {every slice a,b in [-n-1,n+1]+None, every "
-                 "int in [-n-1,n], every forward/reverse Span in [-2,n+2] through remap_with, every 1-span and (n<=4) "
+                 "int in [-n-1,n], every forward/reverse Span in [-2,n+2] that at least touches the map through remap_with, "
+                 "every 1-span and (n<=4) "
                  "2-span feature map on the map, lists of two slices}; thorough 6000 seeded random compositions",
         "rule": "expected = composition of the two position lists (strand flags xor-ed); coordinates inside the parent",
     },
